@@ -626,7 +626,7 @@ def c15_crossing_polygon(rng, margin=1e-2):
 
 def c15_embed(rng, p2, mode=None):
     """Embed 2-D points in a plane of R^3. mode: 'xy' (z = 0 exactly), 'xyz0' (z = const exactly),
-    'random' (random rotation, offset <= 10 diameters, scale 1e-3..1e3 through gen.place).
+    'random' (random rotation, offset <= 10 diameters, scale 1e-3..1e3), 'far' (scale 600..1000, offset 8..10).
     Returns (v3, info) with info['n_true'] the unit normal of the generating frame (+z image)."""
     mode = mode or ["xy", "xyz0", "random", "random"][int(rng.integers(4))]
     p2 = np.asarray(p2, dtype=float)
@@ -636,11 +636,17 @@ def c15_embed(rng, p2, mode=None):
     if mode == "xyz0":
         v[:, 2] = float(np.round(rng.uniform(-5, 5) * 16) / 16)
         return v, {"mode": mode, "n_true": [0.0, 0.0, 1.0], "scale": 1.0}
-    scale = 1.0 if rng.random() < 0.6 else float(10 ** rng.uniform(-3, 3))
+    if mode == "far":      # far corner of the quantifier: scale ~1e3, offset 8..10 diameters (coordinates ~1e4)
+        scale = float(rng.uniform(600, 1000))
+    else:
+        scale = 1.0 if rng.random() < 0.6 else float(10 ** rng.uniform(-3, 3))
     R = random_rotation(rng)
     w = (v * scale) @ R.T
     d = diameter(w)
-    off = 0.0 if rng.random() < 0.3 else float(rng.uniform(0, 10))
+    if mode == "far":
+        off = float(rng.uniform(8, 10))
+    else:
+        off = 0.0 if rng.random() < 0.3 else float(rng.uniform(0, 10))
     direction = rng.normal(size=3)
     direction /= np.linalg.norm(direction)
     w = w + direction * off * d
